@@ -12,10 +12,13 @@ Byte streams from a structured HTTP generator are fed, in random chunkings, to t
   connection is gone from the registry; a bystander connection and — for streams without
   legitimate writes — the accessory state are untouched.
 * Tie: interaction-transcript replay.  Every call the protocol makes on its h11.Connection
-  (arguments, result / exception class) and, per dispatch, the outcome of urlparse and of the
-  route handler are recorded; the model (lean/HapModel/Pump.lean + Dispatch.lean) is run against
-  the transcript and must make exactly those calls in that order, write the same bytes, close and
-  unregister at the same points.
+  (arguments, result / exception class, our_state/their_state before and after) — also on a parser
+  it installs later — and, per dispatch, the outcome of urlparse and of the route handler plus the
+  position of the dispatch among the h11 calls are recorded; the model (lean/HapModel/Pump.lean +
+  Dispatch.lean) is run against the transcript and must make exactly those calls in that ONE
+  interleaved order, write the same bytes, close and unregister at the same points, install the
+  session key and schedule finish_pair alike.  The h11 state-machine contract assumed by
+  C19_callbacks_* is evaluated on every recorded call.
 """
 from __future__ import annotations
 
@@ -38,14 +41,21 @@ TRUSTED = [
     "Lean 4.33 kernel; axioms propext, Classical.choice, Quot.sound only (audited by #print axioms)",
     "hand-written models lean/HapModel/Pump.lean (HAPServerProtocol pump) and Dispatch.lean (repaired dispatch); tied "
     "by interaction-transcript replay of every h11 call, urlparse outcome and handler outcome on each generated stream",
-    "h11 (0.16) byte-level parsing and response framing: library code, exercised not proved; the theorems quantify over "
-    "every h11 behaviour subject only to its documented contract that its methods raise nothing but h11.ProtocolError",
+    "h11 (0.16) byte-level parsing and response framing: library code, exercised not proved; the data_received theorems quantify "
+    "over every h11 behaviour subject only to its documented contract that its methods raise nothing but h11.ProtocolError",
+    "C19_callbacks_no_escape / C19_callbacks_one_response (all callbacks incl. the delayed response, all histories) assume h11's "
+    "documented connection state machine (H11Contract: per-call relations NextOk/CycleOk/SendOk on our_state/their_state) — "
+    "evaluated by the driver on every recorded call of the real h11 in each run — and NoFramingRefusal (h11 refuses a send its "
+    "state machine permits only for framing reasons: body on a HEAD/204/304 answer, Content-Length mismatch; counted per run)",
     "asyncio contract: callbacks run to completion on one thread; data_received is never called with b'' nor after "
     "transport.close(); connection_lost once. Handler bodies may raise any Exception subclass (not BaseException)",
     "BaseException subclasses are outside the pump model; exceptions that surface through the event loop's exception handler "
     "(done-callbacks, timers, tasks run for a connection, incl. CancelledError) and calls that do not return are judged by the "
     "harness oracle on the real code (time-limited calls, loop exception handler), not by a theorem",
-    "the frame layer (hap_crypto) is C04/C05's: streams run as plaintext (hap_crypto None) before and inside a session",
+    "the frame layer (hap_crypto) is C04/C05's: most streams run as plaintext (hap_crypto None) before and inside a session; the "
+    "session:* streams complete a real pair-verify and continue encrypted, with the result of each hap_crypto.decrypt() supplied "
+    "to the model as an oracle field and the answers decrypted by harness/ref/frames.py",
+    "not modelled in the pump: check_idle, queue_event/_send_events (C12/C13's model), write()'s encrypt branch (C05), connection_made",
     "harness/ref/httpc.py (h11 client re-parse, reference request count with an h11 server), generators, canonicalisers",
 ]
 
@@ -57,60 +67,102 @@ PROBE = b"GET /accessories HTTP/1.1\r\nHost: probe\r\n\r\n"
 
 
 class RecConn:
-    """Wraps the protocol's h11.Connection and records every interaction."""
+    """Wraps the protocol's h11.Connection and records every interaction, each with the connection's
+    (our_state, their_state) before and after the call (read from the inner object, not recorded as calls):
+    the h11 state-machine contract of the model is evaluated on them by the driver."""
 
     def __init__(self, inner, calls: List[Any]):
         object.__setattr__(self, "_c", inner)
         object.__setattr__(self, "_calls", calls)
 
+    def _st(self):
+        return [str(self._c.our_state), str(self._c.their_state)]
+
+    def _rec(self, before, *entry):
+        self._calls.append(list(entry) + [{"s": before + self._st()}])
+
     def receive_data(self, data):
-        self._calls.append(["receive_data", hx(data)])
-        return self._c.receive_data(data)
+        b = self._st()
+        r = self._c.receive_data(data)
+        self._rec(b, "receive_data", hx(data))
+        return r
 
     def next_event(self):
+        b = self._st()
         try:
             ev = self._c.next_event()
         except h11.RemoteProtocolError:
-            self._calls.append(["next_event", {"ev": "RemoteProtocolError"}])
+            self._rec(b, "next_event", {"ev": "RemoteProtocolError"})
             raise
         except h11.LocalProtocolError:
-            self._calls.append(["next_event", {"ev": "LocalProtocolError"}])
+            self._rec(b, "next_event", {"ev": "LocalProtocolError"})
             raise
         except BaseException as ex:  # contract breach of h11: recorded so that the model desyncs
             self._calls.append([f"h11-raised-{type(ex).__name__}"])
             raise
-        self._calls.append(["next_event", _ev_json(ev)])
+        self._rec(b, "next_event", _ev_json(ev))
         return ev
 
     def start_next_cycle(self):
+        b = self._st()
         try:
             self._c.start_next_cycle()
         except h11.LocalProtocolError:
-            self._calls.append(["start_next_cycle", False])
+            self._rec(b, "start_next_cycle", False)
             raise
-        self._calls.append(["start_next_cycle", True])
+        self._rec(b, "start_next_cycle", True)
 
     @property
     def our_state(self):
+        b = self._st()
         v = self._c.our_state
-        self._calls.append(["our_state", v is h11.MUST_CLOSE])
+        self._rec(b, "our_state", v is h11.MUST_CLOSE)
+        return v
+
+    @property
+    def trailing_data(self):
+        b = self._st()
+        v = self._c.trailing_data
+        self._rec(b, "trailing_data", bool(v[0]))
         return v
 
     def send(self, event):
+        b = self._st()
         try:
             r = self._c.send(event)
         except h11.LocalProtocolError:
-            self._calls.append(["send", _send_json(event), None])
+            self._rec(b, "send", _send_json(event), None)
             raise
         except BaseException as ex:
             self._calls.append([f"h11-raised-{type(ex).__name__}"])
             raise
-        self._calls.append(["send", _send_json(event), hx(r or b"")])
+        self._rec(b, "send", _send_json(event), hx(r or b""))
         return r
 
     def __getattr__(self, name):
         self._calls.append([f"other:{name}"])
         return getattr(self._c, name)
+
+
+_REC_CLASSES: Dict[Any, Any] = {}
+
+
+def _recording_class(cls):
+    """Subclass of the protocol class whose `conn` attribute is a property: a parser the protocol
+    installs later (`self.conn = h11.Connection(...)` in the upgrade step) is wrapped and recorded too."""
+    if cls not in _REC_CLASSES:
+        def _get(self):
+            return self.__dict__["_verif_conn"]
+
+        def _set(self, v):
+            if not isinstance(v, RecConn):
+                calls = self.__dict__["_verif_calls"]
+                calls.append(["fresh", {"s": ["-", "-", str(v.our_state), str(v.their_state)]}])
+                v = RecConn(v, calls)
+            self.__dict__["_verif_conn"] = v
+
+        _REC_CLASSES[cls] = type("Recorded" + cls.__name__, (cls,), {"conn": property(_get, _set)})
+    return _REC_CLASSES[cls]
 
 
 def _ev_json(ev) -> Dict[str, Any]:
@@ -177,7 +229,13 @@ def instrument(conn: base.Conn, world: base.World):
     calls: List[Any] = []
     disp: List[Dict[str, Any]] = []
     cbs: List[Dict[str, Any]] = []
-    p.conn = RecConn(p.conn, calls)
+    if "conn" in getattr(p, "__dict__", {}) and not isinstance(getattr(type(p), "conn", None), property):
+        inner = p.__dict__.pop("conn")
+        p.__dict__["_verif_calls"] = calls
+        p.__class__ = _recording_class(type(p))
+        p.conn = RecConn(inner, calls)
+    else:  # the parser is not a plain instance attribute in this tree: a parser installed later is not followed
+        p.conn = RecConn(p.conn, calls)
     hap_handler = world.mods[3]
     _patch_urlparse(hap_handler)
     h = p.handler
@@ -185,7 +243,7 @@ def instrument(conn: base.Conn, world: base.World):
 
     def dispatch(request, body=None):
         rec: Dict[str, Any] = {"urlparse": None, "handler": None, "is_admin": bool(h.state.is_admin(h.client_uuid)),
-                               "escaped": None, "body": hx(body or b""),
+                               "escaped": None, "body": hx(body or b""), "h11_pos": len(calls),
                                "target": hx(request.target) if request is not None else None}
         disp.append(rec)
         _CURRENT[0] = rec
@@ -485,6 +543,7 @@ def run_stream(world: base.World, chunks: List[bytes], verified: bool, with_uuid
             conn.p.handler.client_uuid = uuid.UUID(ident.decode())
     calls, disp, cbs = instrument(conn, world) if record else ([], [], [])
     digest0 = world.digest()
+    fp0 = world.finish_pair_calls
     escaped: List[Tuple[str, str]] = []
     hung: List[str] = []
     fed = b""
@@ -562,6 +621,8 @@ def run_stream(world: base.World, chunks: List[bytes], verified: bool, with_uuid
     obs["bystander_answers"] = len(r["responses"]) == 1 and not r["escaped"]
     obs["final_ops"] = [[o[0]] + ([hx(o[1])] if o[0] == "write" else []) for o in conn.t.ops]
     obs["transcript"] = {"h11": calls, "disp": disp, "callbacks": cbs}
+    obs["encrypted"] = conn.p.hap_crypto is not None
+    obs["finish_pair"] = world.finish_pair_calls - fp0
     return obs
 
 
@@ -1297,6 +1358,228 @@ def run_pending_cases(ctx: Ctx):
                         ctx.fail(probs[0][0], "; ".join(d for _, d in probs[:3]) + f" [{spec['label']}]", spec)
 
 
+# --------------------------------------------------------------------------- a real pair-verify, then the session
+
+SESSION_KINDS = ["clean", "smuggled-same-segment", "smuggled-next-segment", "bad-frame", "split-frames", "rekey"]
+
+
+def _feed(world, conn, cbs, calls, escaped, hung, ch: bytes, crypt_rec: bool):
+    """One data_received, recorded as a callback; inside a session the result of hap_crypto.decrypt() is recorded."""
+    cb: Dict[str, Any] = {"cb": "data", "data": hx(ch)}
+    cbs.append(cb)
+    hc = conn.p.hap_crypto
+    if crypt_rec and hc is not None:
+        from cryptography.exceptions import InvalidTag
+
+        orig = type(hc).decrypt
+
+        def decrypt():
+            try:
+                r = orig(hc)
+            except InvalidTag:
+                cb["dec"] = None
+                raise
+            cb["dec"] = hx(r)
+            return r
+
+        hc.decrypt = decrypt
+    try:
+        exc, hung_now = base.guarded(conn.p.data_received, ch)
+    finally:
+        if crypt_rec and hc is not None:
+            hc.__dict__.pop("decrypt", None)
+    if exc:
+        cb["escaped"] = exc
+        escaped.append(("data_received", exc))
+    if hung_now:
+        hung.append("data_received")
+    calls.append(["cb_end"])
+    cb["writes"] = sum(1 for o in conn.t.ops if o[0] == "write")
+    cb["closing"] = conn.t.closed
+    world.drain()
+
+
+def run_session(spec: Dict[str, Any]) -> Dict[str, Any]:
+    """A fresh connection completes a REAL pair-verify (reference controller, real crypto); then, depending on
+    the kind: encrypted requests (whole / split across segments / one frame corrupted), plaintext pipelined
+    behind the M3 request (same TCP segment, or the next one), or a second pair-verify inside the session."""
+    from ref import frames
+
+    world = base.World(True, spec["shape"])
+    try:
+        conn = world.connect()
+        calls, disp, cbs = instrument(conn, world)
+        fp0 = world.finish_pair_calls
+        escaped: List[Tuple[str, str]] = []
+        hung: List[str] = []
+        kind = spec["kind"]
+        vc = httpc.VerifyClient(base.CANARY_CTRL_ID, world.admin_key)
+        _feed(world, conn, cbs, calls, escaped, hung, httpc.http_request(b"POST", b"/pair-verify", vc.m1()), True)
+        w0 = b"".join(o[1] for o in conn.t.ops if o[0] == "write")
+        r0, _ = httpc.parse_responses(w0, [b"POST"], eof=False)
+        plain_reqs = [bytes.fromhex(x) for x in spec["requests"]]
+        n_plain_ops = None
+        if r0:
+            vc.read_m2(r0[0].body)
+            m3 = httpc.http_request(b"POST", b"/pair-verify", vc.m3())
+            if kind == "smuggled-same-segment":
+                _feed(world, conn, cbs, calls, escaped, hung, m3 + plain_reqs[0], True)
+            else:
+                _feed(world, conn, cbs, calls, escaped, hung, m3, True)
+            n_plain_ops = len(conn.t.ops)
+            c2a = frames.Real(frames.hkdf(vc.shared, frames.SALT, frames.C2A))
+            ctr = 0
+            if kind == "smuggled-next-segment" and not conn.t.closed:
+                _feed(world, conn, cbs, calls, escaped, hung, plain_reqs[0], True)
+            elif kind in ("clean", "bad-frame", "split-frames", "rekey") and not conn.t.closed:
+                todo = list(plain_reqs)
+                if kind == "rekey":
+                    vc2 = httpc.VerifyClient(base.CANARY_CTRL_ID, world.admin_key)
+                    todo = [httpc.http_request(b"POST", b"/pair-verify", vc2.m1())] + todo
+                for i, rq in enumerate(todo):
+                    if conn.t.closed or escaped:
+                        break
+                    parts = [rq[j:j + 1024] for j in range(0, len(rq), 1024)] or [b""]
+                    fr = frames.seal_frames(c2a, parts, start=ctr)
+                    ctr += len(parts)
+                    wire = b"".join(fr)
+                    if kind == "bad-frame" and i == spec.get("bad_at", 0):
+                        wire = wire[:-1] + bytes([wire[-1] ^ 1])
+                    if kind == "split-frames" and len(wire) > 4:
+                        cuts = sorted({c % (len(wire) - 1) + 1 for c in spec.get("cuts", [1, 17])})
+                        segs = [wire[a:b] for a, b in zip([0] + cuts, cuts + [len(wire)])]
+                    else:
+                        segs = [wire]
+                    for sg in segs:
+                        if conn.t.closed or escaped:
+                            break
+                        _feed(world, conn, cbs, calls, escaped, hung, sg, True)
+        # what the peer saw: plaintext answers of the verify, then the session's answers (decrypted)
+        ops = list(conn.t.ops)
+        plain_written = b"".join(o[1] for o in ops[: n_plain_ops or len(ops)] if o[0] == "write")
+        sess_written, dec_ops, undecodable = b"", [], False
+        if n_plain_ops is not None and vc.shared is not None:
+            a2c = frames.Real(frames.hkdf(vc.shared, frames.SALT, frames.A2C))
+            k = 0
+            for o in ops[n_plain_ops:]:
+                if o[0] != "write":
+                    dec_ops.append([o[0]])
+                    continue
+                got, err, used = frames.receive(a2c, o[1], start=k)
+                if err is not None or used != len(o[1]):
+                    undecodable = True
+                    dec_ops.append(["write", hx(o[1])])
+                    continue
+                k += len(got)
+                pt = b"".join(p_ for _, p_ in got)
+                sess_written += pt
+                dec_ops.append(["write", hx(pt)])
+        encrypted_at_end = conn.p.hap_crypto is not None
+        closed_before_lost = conn.t.closed
+        cbs.append({"cb": "lost"})
+        exc, hung_now = base.guarded(conn.p.connection_lost, None)
+        if exc:
+            cbs[-1]["escaped"] = exc
+            escaped.append(("connection_lost", exc))
+        if hung_now:
+            hung.append("connection_lost")
+        calls.append(["cb_end"])
+        cbs[-1]["writes"] = sum(1 for o in conn.t.ops if o[0] == "write")
+        cbs[-1]["closing"] = conn.t.closed
+        world.drain()
+        tail = [[o[0]] for o in conn.t.ops[len(ops):]]
+        head = [[o[0]] + ([hx(o[1])] if o[0] == "write" else []) for o in ops[: n_plain_ops or len(ops)]]
+        return {"escaped": escaped, "hung": hung + ([world.hung] if world.hung else []), "loop_errors": list(world.loop_errors),
+                "plain_written": plain_written, "sess_written": sess_written, "undecodable": undecodable,
+                "verified": bool(r0) and n_plain_ops is not None and encrypted_at_end, "closed": closed_before_lost,
+                "registered_after_lost": conn.p in world.connections.values(),
+                "final_ops": head + dec_ops + tail, "encrypted": encrypted_at_end,
+                "finish_pair": world.finish_pair_calls - fp0,
+                "transcript": {"h11": calls, "disp": disp, "callbacks": cbs}}
+    finally:
+        world.close()
+
+
+def session_problems(spec: Dict[str, Any], o: Dict[str, Any]) -> List[Tuple[str, str]]:
+    problems: List[Tuple[str, str]] = []
+    for where in o["hung"]:
+        problems.append(("C19:callback-does-not-return", f"{where} did not return"))
+    for where, cls in o["escaped"]:
+        problems.append((f"C19:exception-escapes-callback:{cls}", f"{cls} propagates out of {where}"))
+    for cls, msg in o["loop_errors"]:
+        if cls not in ("KeyboardInterrupt", "SystemExit"):
+            problems.append((f"C19:exception-escapes-callback:{cls}", f"the event loop reported {cls}: {msg[:160]}"))
+    if o["undecodable"]:
+        problems.append(("C19:malformed-response", "bytes written inside the session are not a well-formed frame stream"))
+    pr, ptrail = httpc.parse_responses(o["plain_written"], [b"POST"] * 4, eof=False)
+    if ptrail:
+        problems.append(("C19:malformed-response", f"plaintext answers: {ptrail}"))
+    reqs = [bytes.fromhex(x) for x in spec["requests"]]
+    if spec["kind"] in ("clean", "split-frames", "rekey", "bad-frame"):
+        sent = b"".join(reqs if spec["kind"] != "bad-frame" else reqs[: spec.get("bad_at", 0)])
+        ref = reference_requests(sent)
+        sr, strail = httpc.parse_responses(o["sess_written"], ref["methods"] + [b"POST"], eof=o["closed"])
+        n_extra = 1 if spec["kind"] == "rekey" else 0  # the M1 of the second verify is answered too
+        if strail:
+            problems.append(("C19:malformed-response", f"answers inside the session: {strail}"))
+        if len(sr) > ref["complete"] + n_extra:
+            problems.append(("C19:more-responses-than-requests", f"{len(sr)} responses for {ref['complete'] + n_extra} complete requests"))
+        if not o["closed"] and len(sr) != ref["complete"] + n_extra:
+            problems.append(("C19:request-unanswered", f"session left open with {len(sr)} responses for {ref['complete'] + n_extra} complete requests"))
+        if spec["kind"] == "bad-frame" and not o["closed"]:
+            problems.append(("C19:request-unanswered", "a frame that does not authenticate neither closed the connection nor was answered"))
+    if o["registered_after_lost"]:
+        problems.append(("C19:closed-connection-still-registered", "connection still in the server's registry after connection_lost"))
+    return problems
+
+
+def session_specs(ctx: Ctx) -> List[Dict[str, Any]]:
+    rng = ctx.rng
+    specs = []
+    probe = base.World(True, "sync")
+    try:
+        aid, on_iid = probe.writable()
+        get = b"GET /accessories HTTP/1.1\r\nHost: hap.local\r\n\r\n"
+        put = _put(rng, json.dumps({"characteristics": [{"aid": aid, "iid": on_iid, "value": False}]}).encode(), False)
+        for shape in (["sync"] if ctx.quick else ["sync", "async", "bridge"]):
+            for kind in SESSION_KINDS:
+                for v in range(ctx.n(3, 20)):
+                    reqs = [get] if v == 0 else []
+                    while len(reqs) < (1 if kind.startswith("smuggled") else rng.choice([1, 2, 3])):
+                        raw, _m = gen_request(rng, probe, True)
+                        if b"/pair-" in raw or len(raw) > 6000 or b"/resource" in raw or b"/pairings" in raw:
+                            continue
+                        reqs.append(rng.choice([raw, get, put]))
+                    specs.append({"kind": kind, "shape": shape, "requests": [hx(r) for r in reqs], "bad_at": rng.randrange(len(reqs)),
+                                  "cuts": [rng.randrange(1, 4000) for _ in range(rng.randrange(1, 4))],
+                                  "label": f"session:{kind}"})
+    finally:
+        probe.close()
+    return specs
+
+
+def run_session_cases(ctx: Ctx, lines, metas, obss):
+    st = ctx.stats
+    for spec in session_specs(ctx):
+        if base.hung_budget_exhausted():
+            return
+        spec = dict(spec, kind_="session")
+        o = run_session(spec)
+        probs = session_problems(spec, o)
+        st.case(["session", spec["shape"], spec["kind"], spec["requests"], spec["bad_at"], spec["cuts"]], True)
+        st.hit("op", f"session:{spec['kind']}")
+        st.hit("outcome", "session:PROBLEM" if probs else ("session:closed" if o["closed"] else "session:open-and-answering"))
+        if o["verified"]:
+            st.hit("outcome", "session:pair-verify-completed-and-key-installed")
+        if probs and not any(f.signature == probs[0][0] for f in ctx.failures):
+            ctx.fail(probs[0][0], "; ".join(d for _, d in probs[:4]) + f" [{spec['label']}]", dict(spec, kind="session", session_kind=spec["kind"]))
+        o2 = dict(o, closed=True)
+        lines.append(model_line(o2, False, False))
+        metas.append({"label": spec["label"], "verified": False, "with_uuid": False, "world": [True, spec["shape"]],
+                      "requests": [x[:80] for x in spec["requests"]]})
+        obss.append(o2)
+
+
 # --------------------------------------------------------------------------- oracle
 
 
@@ -1409,12 +1692,13 @@ def model_line(obs: Dict[str, Any], verified: bool, with_uuid: bool) -> Dict[str
     cbs = []
     for cb in t["callbacks"]:
         c = {"cb": cb["cb"]}
-        for k in ("data", "ok", "err"):
+        for k in ("data", "ok", "err", "dec"):
             if k in cb:
                 c[k] = cb[k]
         cbs.append(c)
     disp = [{"urlparse": d["urlparse"], "handler": d["handler"], "is_admin": d["is_admin"],
-             "self_gone": bool(d.get("self_gone")), "body": d.get("body"), "target": d.get("target")} for d in t["disp"]]
+             "self_gone": bool(d.get("self_gone")), "body": d.get("body"), "target": d.get("target"),
+             "h11_pos": d.get("h11_pos")} for d in t["disp"]]
     return {"layer": "pump", "op": "transcript", "verified": verified, "has_uuid": bool(with_uuid) and verified,
             "h11": t["h11"], "disp": disp, "callbacks": cbs}
 
@@ -1433,6 +1717,16 @@ def compare(ctx: Ctx, meta, m: Dict[str, Any], obs: Dict[str, Any]):
         return False
     iv = impl_view(obs)
     mv = {"per_callback": m["per_callback"], "out": m["out"], "closing": True, "registered": m["registered"]}
+    for k in ("encrypted", "finish_pair"):  # the flag steps of _process_response (session key installed, finish_pair jobs)
+        if k in obs:
+            iv[k], mv[k] = obs[k], m[k]
+    ctx.stats.hit("outcome", "h11-contract-clauses-checked", m.get("contract_checked", 0))
+    if m.get("framing_refusals"):
+        ctx.stats.hit("outcome", "h11-refused-a-send-its-state-machine-permits (framing)", m["framing_refusals"])
+    if m.get("contract_broken"):
+        # the hypothesis of C19_callbacks_no_escape does not hold for this h11 on this transcript
+        ctx.disagree("h11-contract", meta, "H11Contract holds on every recorded call", m["contract_broken"][:3])
+        return False
     bad = None
     if m["desync"]:
         bad = f"control flow differs: {m['desync']}"
@@ -1546,6 +1840,7 @@ def run(ctx: Ctx, model: bool = True, n: Optional[int] = None, n_multi: Optional
     run_multi_cases(ctx, ctx.n(220, 4000) if n_multi is None else n_multi, lines, metas, obss)
     run_pending_cases(ctx)
     run_admin_cases(ctx, lines, metas, obss)
+    run_session_cases(ctx, lines, metas, obss)
     if not model:
         return
     answers = run_model_parallel("C19", lines)
@@ -1576,6 +1871,21 @@ def replay(ctx: Ctx, r):
             print(f"  connection {k} ({c['role']}, {c.get('state')}): before the admin's request {[bytes.fromhex(x)[:60] for x in c['pre']]}; "
                   f"responses {[s_ for s_, _ in o['responses']]} closed={o['closed']} registered={o['registered']}")
         print("admin's request:", bytes.fromhex(r["op_request"])[:80])
+        if probs:
+            ctx.fail(probs[0][0], "; ".join(d for _, d in probs), r)
+        for f in ctx.failures:
+            print("FAILS:", f.signature, f.description)
+        print("verdict:", "property violated on this input" if ctx.failures else "holds on this input")
+        return 1 if ctx.failures else 0
+    if r.get("kind") == "session":
+        spec = dict(r, kind=r["session_kind"])
+        o = run_session(spec)
+        probs = session_problems(spec, o)
+        print("scenario: real pair-verify, then", r["session_kind"], "shape:", r["shape"])
+        for x in r["requests"]:
+            print("  request:", bytes.fromhex(x)[:100])
+        print("key installed:", o["encrypted"], "closed:", o["closed"], "escaped:", o["escaped"], "loop reports:", o["loop_errors"])
+        print("answers inside the session:", o["sess_written"][:200])
         if probs:
             ctx.fail(probs[0][0], "; ".join(d for _, d in probs), r)
         for f in ctx.failures:
